@@ -61,7 +61,7 @@ func growableViewsDisjoint(e *Env, floor int, prefixes ...string) {
 					}
 					continue
 				}
-				k := prov.Of(sl.X)
+				k := prov.Of(rootOfWindows(sl))
 				if _, seen := byBase[k]; !seen {
 					order = append(order, k)
 				}
@@ -90,10 +90,9 @@ func growableViewsDisjoint(e *Env, floor int, prefixes ...string) {
 					if i == j {
 						continue
 					}
-					lo1, ok1 := ci(v.sl.Low, 0)
-					mx1, ok2 := ci(v.sl.Max, inf)
-					lo2, ok3 := ci(w.sl.Low, 0)
-					mx2, ok4 := ci(w.sl.Max, inf)
+					lo1, mx1, okA := windowRange(v.sl, ci, inf)
+					lo2, mx2, okB := windowRange(w.sl, ci, inf)
+					ok1, ok2, ok3, ok4 := okA, okA, okB, okB
 					if ok1 && ok2 && ok3 && ok4 && (mx1 <= lo2 || mx2 <= lo1) {
 						continue
 					}
@@ -120,4 +119,51 @@ func capStr(v int64, ok bool, inf int64) string {
 		return "end"
 	}
 	return fmt.Sprint(v)
+}
+
+// rootOfWindows: the object a (possibly nested) slice expression is a window of.
+func rootOfWindows(sl *ssa.Slice) ssa.Value {
+	v := ssa.Value(sl)
+	for {
+		switch x := v.(type) {
+		case *ssa.Slice:
+			v = x.X
+		case *ssa.ChangeType:
+			v = x.X
+		default:
+			return v
+		}
+	}
+}
+
+// windowRange: the absolute [low, capacity end) of a nested slice expression
+// x[a:..:m1][b:..:m2]… relative to its root, when all bounds are constants.
+func windowRange(sl *ssa.Slice, ci func(ssa.Value, int64) (int64, bool), inf int64) (lo, mx int64, ok bool) {
+	var chain []*ssa.Slice
+	v := ssa.Value(sl)
+	for {
+		if x, isSl := v.(*ssa.Slice); isSl {
+			chain = append(chain, x)
+			v = x.X
+			continue
+		}
+		if ct, isCt := v.(*ssa.ChangeType); isCt {
+			v = ct.X
+			continue
+		}
+		break
+	}
+	lo, mx, ok = 0, inf, true
+	for i := len(chain) - 1; i >= 0; i-- { // outermost base first
+		l, ok1 := ci(chain[i].Low, 0)
+		m, ok2 := ci(chain[i].Max, inf)
+		if !ok1 || !ok2 {
+			return 0, 0, false
+		}
+		if m != inf && lo+m < mx {
+			mx = lo + m
+		}
+		lo += l
+	}
+	return lo, mx, true
 }
